@@ -90,7 +90,7 @@ impl Quantizer {
     ///
     pub fn convert(&mut self, v_in: f32) -> Conversion {
         // return early if vin is within the window of the last coversion plus a little hysteresis
-        if self.is_allowed(self.cached_conversion.note_num.into()) {
+        if self.is_allowed((self.cached_conversion.note_num % 12).into()) {
             let low_bound = self.cached_conversion.stairstep - HYSTERESIS;
             let high_bound = self.cached_conversion.stairstep + SEMITONE_WIDTH + HYSTERESIS;
 
